@@ -5,7 +5,7 @@ from harness.props import c09
 RULE = ("databases with the same label text in several kinds and directions, labels with spaces/punctuation/empty flavour/extra "
         "parts, generic and specific variants, case variants; every record's dumped label is looked up in every section with "
         "random.choice driven over every candidate index, plus near-miss texts (case change, trailing blank, generic<->specific); "
-        "label-based impersonate_tcp/mtu (base packets SYN / SYN+ACK also with ECE, CWR, PSH, URG, NS set) is checked to use a record of that label, kind and direction; non-trivial = >= 1 candidate")
+        "label-based impersonation with an explicitly passed EMPTY database while the process default is loaded must raise DatabaseError; label-based impersonate_tcp/mtu (base packets SYN / SYN+ACK also with ECE, CWR, PSH, URG, NS set) is checked to use a record of that label, kind and direction; non-trivial = >= 1 candidate")
 ASSUMPTIONS = ["random.choice is replaced by an indexable stub (the real draw is uniform over the same candidate list)"]
 EXHAUSTIVE = {"random.choice index over all candidates of every lookup": True}
 SECS = ["mtu", "tcp_req", "tcp_resp", "http_req", "http_resp"]
@@ -74,12 +74,26 @@ def impl_init():
     SEC = [(MTURecord, None), (TCPRecord, Direction.CLIENT_TO_SERVER), (TCPRecord, Direction.SERVER_TO_CLIENT),
            (HTTPRecord, Direction.CLIENT_TO_SERVER), (HTTPRecord, Direction.SERVER_TO_CLIENT)]
 
+    # the process-wide default database is loaded (as in ordinary use): an explicitly passed database must still be the one consulted
+    from pyp0f.database import DATABASE, Database
+    DATABASE.load()
+    empties = [Database(), U.load_db("[tcp:request]\nlabel = s:unix:Linux:3.11 and newer\n[tcp:response]\nlabel = s:unix:Linux:3.x\n[mtu]\nlabel = Ethernet or modem\n")]
+
     def impl(c):
         try:
             db = U.load_db("\n".join(c["lines"]) + "\n")
         except DatabaseError as e:
             return {"dberr": {"err": type(e).__name__, "line": getattr(e, "line_number", None)}}
         out = {}
+        for ei, edb in enumerate(empties):
+            for what, call in (("tcp-syn", lambda: impersonate_tcp(IP() / TCP(flags="S", seq=1), raw_label="s:unix:Linux:3.11 and newer", database=edb)),
+                               ("tcp-synack", lambda: impersonate_tcp(IP() / TCP(flags="SA", seq=1, ack=1), raw_label="s:unix:Linux:3.x", database=edb)),
+                               ("mtu", lambda: impersonate_mtu(IP() / TCP(flags="S", seq=1), raw_label="Ethernet or modem", database=edb))):
+                try:
+                    call()
+                    out["empty-db-%d|%s|imp" % (ei, what)] = "impersonation by label succeeded although the database passed in holds no record (another database was consulted)"
+                except DatabaseError:
+                    pass
         for q in c["queries"]:
             for si, (cls, d) in enumerate(SEC):
                 got = []
